@@ -417,7 +417,7 @@ def check_batch(ctx, cases, spawn, pending):
 
 
 # the witness of the overriding-DeviceVar defect repaired by commit 6422374 (device 1's a covered device 2's variable)
-WITNESS = {"kind": "group", "group": "process", "classes": [["D0_0", {"root": "D", "bases": [], "maps": [], "vars": [["v0", "m", "B"], ["v1", "m", "B"]]}], ["D0_1", {"root": "D", "bases": ["D0_0"], "maps": [], "vars": [["v0", "m", "Q"]]}], ["D1_0", {"root": "D", "bases": [], "maps": [], "vars": [["v2", "m", "B"]]}]], "main": null, "subs": [["D0_1", 1], ["D1_0", 2]], "sets": [[2, "v2", [7]], [1, "v1", [3]], [1, "v0", [1]]], "back": [[1, "v0", [2]], [1, "v1", [4]], [2, "v2", [9]]], "wkc": [5, 6]}
+WITNESS = {"kind": "group", "group": "process", "classes": [["D0_0", {"root": "D", "bases": [], "maps": [], "vars": [["v0", "m", "B"], ["v1", "m", "B"]]}], ["D0_1", {"root": "D", "bases": ["D0_0"], "maps": [], "vars": [["v0", "m", "Q"]]}], ["D1_0", {"root": "D", "bases": [], "maps": [], "vars": [["v2", "m", "B"]]}]], "main": None, "subs": [["D0_1", 1], ["D1_0", 2]], "sets": [[2, "v2", [7]], [1, "v1", [3]], [1, "v0", [1]]], "back": [[1, "v0", [2]], [1, "v1", [4]], [2, "v2", [9]]], "wkc": [5, 6]}
 
 
 def run(ctx):
